@@ -256,6 +256,53 @@ def float_line_matches(text, bits):
 
 
 # ------------------------------------------------------------------ run
+LOOKALIKE_NAMES = ["hemi.surf.gz", "x.gz", ".gz", "a.GZ", "f.json", "1:0", "frag.gz.gz", "gz", "a.b.c", "m.gzip",
+                   "left.surf.gii", "7:0.gz", "info", "x.shard"]
+
+
+def _big_mesh_stream(R):
+    """One mesh per run with more than 2^22 triangles (a 48 MiB index block): the round trip through
+    save_mesh_as_precomputed / read_precomputed_mesh returns every triangle, and a bad vertex reference or a
+    cut tail BEYOND the first 48 MiB is still refused.  Oracle only (the extracted model is not run on 12 million
+    indices); the file is compared with the format's layout directly."""
+    import numpy as np
+    from neuroglancer_scripts import mesh
+    nt = 2 ** 22 + 3
+    nv = 1000
+    v = (np.arange(nv * 3, dtype="<f4").reshape(nv, 3) * np.float32(0.25)).astype("<f4")
+    t = (np.arange(nt * 3, dtype=np.uint64) * 7919 % nv).astype("<u4").reshape(nt, 3)
+    case = {"kind": "big-mesh", "nv": nv, "nt": nt}
+    R.case(case, nontrivial=True)
+    R.count("big-mesh:round-trip")
+    buf = io.BytesIO()
+    mesh.save_mesh_as_precomputed(buf, v, t)
+    b = buf.getvalue()
+    want = struct.pack("<I", nv) + v.tobytes() + t.tobytes()
+    if b != want:
+        R.violation("large mesh: written bytes are not count + vertices + triangles", case,
+                    {"len": len(b), "want_len": len(want)})
+        return
+    try:
+        v2, t2 = mesh.read_precomputed_mesh(io.BytesIO(b))
+        ok = v2.shape == v.shape and t2.shape == t.shape and np.array_equal(v2.view("<u4"), v.view("<u4")) \
+            and np.array_equal(t2, t)
+        if not ok:
+            R.violation("large mesh: round trip lost or changed data", case,
+                        {"triangles_written": nt, "triangles_read": int(t2.shape[0])})
+    except Exception as e:  # noqa: BLE001
+        R.violation("large mesh: a valid file was refused", case, {"exc": type(e).__name__})
+    for what, bb in (("bad-last-index", b[:-4] + struct.pack("<I", nv)), ("cut-tail", b[:-5])):
+        R.count("big-mesh:" + what)
+        try:
+            mesh.read_precomputed_mesh(io.BytesIO(bb))
+            R.violation("large mesh: malformed data beyond the first 48 MiB accepted", dict(case, damage=what), {})
+        except mesh.InvalidMeshDataError:
+            pass
+        except Exception as e:  # noqa: BLE001
+            R.violation("large mesh: malformed data raised something else than InvalidMeshDataError",
+                        dict(case, damage=what), {"exc": type(e).__name__})
+
+
 def run(R):
     import numpy as np
     import neuroglancer_scripts
@@ -928,6 +975,10 @@ def run(R):
             nf = rng.choice([0, 1, 2, 3, 4, 5, 5, 8, 13])
             frags = ["".join(rng.choice(alphabet) for _ in range(rng.randrange(0, 8))) for _ in range(nf)]
             frags = [f for f in frags if ".." not in f.split("/")]
+            if i % 4 == 1 and frags:
+                # names that look like a stored form or carry a suffix of their own (a fragment may be called
+                # anything): they must appear in the link file exactly as given
+                frags[rng.randrange(len(frags))] = rng.choice(LOOKALIKE_NAMES)
             rows.append([str(lab)] + frags)
         if rows and kind == "dup":
             rows.append([rows[0][0], "again"])
@@ -1160,6 +1211,7 @@ def run(R):
         R.count("py_int:" + impl[0])
         if impl != got:
             R.disagree("int(str) vs py_int", {"cell": c}, impl, got)
+    _big_mesh_stream(R)
     logging.disable(logging.NOTSET)
 
 
